@@ -765,6 +765,20 @@ func (s *session) apply(step tf.M) {
 			best["n"] = cur - p
 			s.apply(best)
 		}
+	case "SetPar":
+		// environment of FeedsVote.tla: governance changes the feeds parameters (real MsgUpdateParams); the update
+		// interval stays
+		fp := app.FeedsKeeper.GetParams(s.r.Ctx)
+		fp.MaxCurrentFeeds = uint64(tf.Int(step, "maxFeeds", int(fp.MaxCurrentFeeds)))
+		fp.PowerStepThreshold = int64(tf.Int(step, "step", int(fp.PowerStepThreshold)))
+		fp.MinInterval = int64(tf.Int(step, "minI", int(fp.MinInterval)))
+		fp.MaxInterval = int64(tf.Int(step, "maxI", int(fp.MaxInterval)))
+		o := s.r.Deliver(&feedstypes.MsgUpdateParams{Authority: app.FeedsKeeper.GetAuthority(), Params: fp})
+		if !o.OK() {
+			panic(fmt.Sprint("SetPar failed: ", o.Err, o.Panic))
+		}
+		s.d.W.Step("SetPar", tf.M{"maxFeeds": int(fp.MaxCurrentFeeds), "step": int(fp.PowerStepThreshold), "minI": int(fp.MinInterval),
+			"maxI": int(fp.MaxInterval)}, outc(o), s.project())
 	case "EndBlock":
 		o := s.r.EndBlock()
 		ob := s.r.BeginBlock(1)
